@@ -34,6 +34,17 @@ def _exc_name(r):
     return ast.unparse(e).split(".")[-1]
 
 
+def _target_shape(t):
+    """the shape of a loop target (its names are bound variables: every use is a term over the element of the iterable)"""
+    if isinstance(t, (ast.Tuple, ast.List)):
+        return "(" + ",".join(_target_shape(e) for e in t.elts) + ")"
+    if isinstance(t, ast.Starred):
+        return "*" + _target_shape(t.value)
+    if isinstance(t, ast.Name):
+        return "_"
+    return ast.dump(t)
+
+
 def summary(v):
     """(exits, effects) of the function viewed by v (an FV whose evaluator is in exact + alias mode)"""
     from .lib import full_term
@@ -131,7 +142,7 @@ def summary(v):
                 continue
             effects.append(item)
         elif isinstance(st, ast.For):
-            effects.append(("for", ast.dump(st.target), cond, [v.term(st.iter, at=st)], lc))
+            effects.append(("for", _target_shape(st.target), cond, [v.term(st.iter, at=st)], lc))
             if st.orelse:
                 raise NotSummarisable("for-else")
         elif isinstance(st, ast.While):
@@ -231,6 +242,39 @@ def _outermost_gphi(ctx, x):
         for y in args:
             stack.extend(sorted(y.atom_ids()))
     return None
+
+
+def _name_carried(ctx, exits, effects, tag):
+    """Loop-carried values are cut points named after the place of their definition in one form of the function; here they
+    are renamed by order of first appearance (effects in program order, then exits), so that two forms whose loops carry the
+    same values in the same roles use the same names.  The renaming is one-to-one within a form."""
+    order = []
+    seen = set()
+
+    def walk(t):
+        for a in sorted(t.atom_ids()):
+            if a in seen:
+                continue
+            seen.add(a)
+            hd, args = ctx.atoms[a]
+            if hd[0] in ("carried", "gate-carried") and hd[1] not in order:
+                order.append(hd[1])
+            for x in args:
+                walk(x)
+    for it in list(effects) + list(exits):
+        for t in [it[2]] + list(it[3]):
+            walk(t)
+    if not order:
+        return exits, effects
+    mapping = {}
+    for a in seen:
+        hd, args = ctx.atoms[a]
+        if hd[0] in ("carried", "gate-carried"):
+            mapping[a] = ctx.mk((hd[0], f"{tag}{order.index(hd[1])}"), ())
+
+    def ren(items):
+        return [(it[0], it[1], ctx.subst(it[2], mapping), [ctx.subst(t, mapping) for t in it[3]], it[4]) for it in items]
+    return ren(exits), ren(effects)
 
 
 def _same_terms(va, ta, tb):
@@ -340,7 +384,7 @@ def _equivalent(repo_cur, repo_ref, qual):
         return False, f"analysis error: {e}"
     except RecursionError:
         return False, "recursion limit"
-    (xa, ea), (xb, eb) = sa, sb
+    (xa, ea), (xb, eb) = _name_carried(ctx, *sa, "A"), _name_carried(ctx, *sb, "A")
     # helpers that are new must have been inlined everywhere
     for items in (xa, ea):
         for it in items:
